@@ -413,4 +413,41 @@ def sStep (o : Obs) (op : Op) : Obs × Bool :=
 def specStep (pre : Obs) (op : Op) (post : Obs) (ok : Bool) : Bool :=
   sStep pre op == (post, ok)
 
+/-! ### canonical form of an observation
+
+The implementation reports labels, properties and constraints in hash order; the harness
+and the driver compare observations after sorting.  `specStepC` is `specStep` up to that
+canonical form — the predicate the driver evaluates on the implementation's outputs. -/
+
+def insNat (x : Nat) : List Nat → List Nat
+  | [] => [x]
+  | y :: rest => if x < y then x :: y :: rest else if x = y then y :: rest else y :: insNat x rest
+
+def sortNat (l : List Nat) : List Nat := l.foldr insNat []
+
+def insProp (e : Nat × Val) : Props → Props
+  | [] => [e]
+  | y :: rest => if e.1 < y.1 then e :: y :: rest else if e.1 = y.1 then e :: rest else y :: insProp e rest
+
+def sortProps (p : Props) : Props := p.foldr insProp []
+
+def lkLt (a b : Nat × Nat) : Bool := a.1 < b.1 || (a.1 = b.1 && a.2 < b.2)
+
+def insLk (e : Nat × Nat) : List (Nat × Nat) → List (Nat × Nat)
+  | [] => [e]
+  | y :: rest => if lkLt e y then e :: y :: rest else if e = y then y :: rest else y :: insLk e rest
+
+def insSNode (e : SNode) : List SNode → List SNode
+  | [] => [e]
+  | y :: rest => if e.id ≤ y.id then e :: y :: rest else y :: insSNode e rest
+
+def canonNode (x : SNode) : SNode :=
+  { id := x.id, labels := sortNat x.labels, props := sortProps x.props }
+
+def canonObs (o : Obs) : Obs :=
+  { nodes := (o.nodes.map canonNode).foldr insSNode [], cons := o.cons.foldr insLk [], next := o.next }
+
+def specStepC (pre : Obs) (op : Op) (post : Obs) (ok : Bool) : Bool :=
+  canonObs (sStep pre op).1 == canonObs post && (sStep pre op).2 == ok
+
 end SgModel.Uniq
